@@ -15,3 +15,35 @@ func initIterator() {
 	IteratorInterface.AddConstantString("Base", Ref(IteratorBaseMixin))
 	RegisterNativeMixin("Std::Iterator::Base", "value.IteratorBaseMixin")
 }
+
+// Every iterator class includes Iterator::Base, which includes Iterable::Base,
+// as their headers declare. Called once all the classes exist.
+func initIteratorMixins() {
+	IteratorBaseMixin.IncludeMixin(IterableBaseMixin)
+
+	iteratorClasses := []*Class{
+		GeneratorClass,
+		ArrayListIteratorClass,
+		ArrayTupleIteratorClass,
+		HashMapIteratorClass,
+		HashRecordIteratorClass,
+		HashSetIteratorClass,
+		PairIteratorClass,
+		IntIteratorClass,
+		StringCharIteratorClass,
+		StringByteIteratorClass,
+		StringGraphemeIteratorClass,
+		ClosedRangeIteratorClass,
+		OpenRangeIteratorClass,
+		LeftOpenRangeIteratorClass,
+		RightOpenRangeIteratorClass,
+		EndlessClosedRangeIteratorClass,
+		EndlessOpenRangeIteratorClass,
+		StackTraceIteratorClass,
+		DiagnosticListIteratorClass,
+		SyncDiagnosticListIteratorClass,
+	}
+	for _, class := range iteratorClasses {
+		class.IncludeMixin(IteratorBaseMixin)
+	}
+}
